@@ -256,6 +256,11 @@ class ExprGen:
     if k < 0.42:
       op = rng.choice(['<<', '>>'])
       a, _ = self.nc(w, depth - 1)
+      lvs = [name for name, mx in self.scope.loopvars]
+      if lvs and rng.random() < 0.5:
+        # a PLAIN loop variable as the (implicitly sized) shift amount; it may exceed the width of the shifted value (seeded C03-10)
+        self.opts.setdefault('_features', set()).add('shift-by-loopvar')
+        return f'({a} {op} {rng.choice(lvs)})', 'cmpd'
       if rng.random() < 0.6: b = str(rng.choice([0, 1, w - 1, w, rng.randint(0, min(w + 1, (1 << w) - 1))]) if w > 1 else rng.randint(0, 1))
       else: b, _ = self.expr(w, depth - 1)
       return f'({a} {op} {b})', 'cmpd'
@@ -1024,9 +1029,10 @@ F34 = 'F34-loop-variable-named-like-global'
 D1 = 'D1-descending-loop-variable-as-value'
 T3 = 'regression-T3-folded-constant-in-struct-field'      # repaired 0e3882f: a folded constant takes the width of its context
 T4 = 'regression-T4-negative-integer-constant'            # repaired 4f83e01: rejected
-T5 = 'T5-struct-closure-constant-without-typedef'
+T5 = 'regression-T5-struct-closure-constant-typedef'        # repaired 814484c (verilog; yosys refuses struct closure constants)
 T6 = 'T6-temporary-of-earlier-block-shadows-closure-name'
-T7 = 'T7-temporary-variable-name-collision'
+T7 = 'regression-T7-temporary-variable-name-collision'     # repaired 1182cae: refused
+D4 = 'D4-implicit-shift-amount-exceeds-width'
 D2 = 'D2-same-child-port-to-port-connection'
 D3 = 'D3-same-operator-nesting'
 T1 = 'regression-T1-select-of-computed-value'             # repaired d462da9: rejected by the type checker / yosys keeps the concatenation text
@@ -1046,9 +1052,8 @@ FINDING_STREAMS = {
 # labelled streams of confirmed defects that are neither registered as known findings nor repaired yet: a check runs such a
 # stream only once known_findings.json has an entry of its property whose match.finding is the stream id
 PENDING_STREAMS = {
-  T5: (('verilog',), ('syntax-invalid',)),               # ks = Pt(1,2) (closure) used whole in a block, no port / wire of type Pt: localparam of an undeclared type (yosys rejects struct closure constants)
+  # (observed, not a property violation, not repaired: stays switched off unless registered)
   T6: (('verilog', 'yosys'), ('rejected-translatable',)),  # temporary `u` of block up1, closure `u` read in block up2: spurious rejection (tmp_var_env is never reset)
-  T7: (('verilog', 'yosys'), ('syntax-invalid', 'multi-driver')),   # block up + temporary a_b / block up_a + temporary b: both declared as __tmpvar__up_a_b
 }
 
 def registered(fid, pid):
@@ -1069,6 +1074,8 @@ FIXED_STREAMS = {
   F38: ('verilog', 'yosys'), F39: ('verilog', 'yosys'),
   D2: ('verilog', 'yosys'),   # directed: the parent connects two ports of the SAME child (rejected on the current tree: counted; seeded C03-7); control: via a parent wire
   T1: ('verilog', 'yosys'), T2: ('verilog', 'yosys'), T3: ('verilog', 'yosys'), T4: ('verilog', 'yosys'),
+  T5: ('verilog',), T7: ('verilog', 'yosys'),
+  D4: ('verilog', 'yosys'),   # directed: a plain loop variable / int temporary as the shift amount, reaching and exceeding the width of the shifted value (seeded C03-10)
   D3: ('verilog', 'yosys'),   # directed: right-nested chains of -, >>, <<, % with operand values for which the groupings differ (seeded C03-8)
   D1: ('verilog',),       # directed (not a repaired defect): descending loops whose variable is used as a VALUE of its own width (seeded C03-2); yosys rejects negative steps
 }
@@ -1276,6 +1283,16 @@ def gen_finding(rng, be, fid):
     lo = rng.randint(0, W - 2); hi = rng.randint(lo + 1, W)
     L += ['class Top( Component ):', '  def construct( s ):', f'    s.a = InPort( Bits{W} )', f'    s.b = InPort( Bits{W} )', f'    s.r = OutPort( Bits{W} )',
           '    @update_ff', '    def ff():', f"      t = s.a {rng.choice('|^+')} s.b", f'      t[{lo}:{hi}] = s.b[0:{hi - lo}]', '      s.r <<= t']
+  elif fid == D4:
+    W = rng.choice([3, 4, 5, 8]); n = rng.randint(W + 1, 2 * W)
+    K = rng.randint(W, 2 * W - 1); K2 = rng.randint(1 << (W - 1).bit_length(), 2 * W + 1)
+    L += ['class Top( Component ):', '  def construct( s ):', f'    s.in_ = InPort( Bits{W} )',
+          f'    s.rsh = [ OutPort( Bits{W} ) for _ in range({n}) ]', f'    s.lsh = [ OutPort( Bits{W} ) for _ in range({n}) ]',
+          f'    s.acc = [ OutPort( Bits{W} ) for _ in range({n}) ]', f'    s.far = OutPort( Bits{W} )', f'    s.far2 = OutPort( Bits{W} )', f'    s.mix = OutPort( Bits{W} )',
+          '    @update', '    def up():', f'      for i in range({n}):', '        s.rsh[i] @= s.in_ >> i', '        s.lsh[i] @= s.in_ << i',
+          '    @update', '    def up2():', f'      t = {K}', f'      u = {K2}', '      s.far @= s.in_ >> t', '      s.far2 @= ( s.in_ | 1 ) << u',
+          '      s.mix @= 0', f'      for j in range({n}):', f"        s.mix @= s.mix ^ ( s.in_ {rng.choice(['>>', '<<'])} j )",
+          '    @update_ff', '    def ff():', f'      for i in range({n}):', f"        s.acc[i] <<= ( s.in_ | {1 << (W - 1)} ) {rng.choice(['>>', '<<'])} i"]
   elif fid == D3:
     W = rng.choice([4, 8])
     ops = ['-', '>>', '<<', '%', '-', '+', '^']
@@ -1417,6 +1434,8 @@ def gen_finding(rng, be, fid):
     if fid == D3: d['cycles'] = fixed_cycles
     if fid == T1 and variant != 'concat-index': d['must_reject'] = 'cannot select bits of a computed value'
     if fid == T4: d['must_reject'] = 'negative integer constant'
+    if fid == T7: d['must_reject'] = 'get the same name in the translation'
+    if fid == T5 and be == 'verilog': d['must_translate'] = True
     return d
   if fid in PENDING_STREAMS:
     d = {'src': '\n'.join(L) + '\n', 'label': fid + (':' + variant if variant else ''), 'finding': fid, 'variant': variant,
